@@ -36,6 +36,7 @@ type VerifC02Import struct {
 	IsStar    bool
 	Record    uint32
 	HasNS     bool // NamespaceRef != InvalidRef
+	NSRef0    uint32 // NamespaceRef.InnerIndex
 	Generated bool // symbol.ImportItemStatus == ImportItemGenerated (before linking)
 	Exported  bool
 
@@ -183,7 +184,7 @@ func VerifC02Link(
 			}
 			for ref, ni := range repr.AST.NamedImports {
 				f.Imports = append(f.Imports, VerifC02Import{Ref: ref.InnerIndex, Alias: ni.Alias, IsStar: ni.AliasIsStar,
-					Record: ni.ImportRecordIndex, HasNS: ni.NamespaceRef != ast.InvalidRef, Exported: ni.IsExported,
+					Record: ni.ImportRecordIndex, HasNS: ni.NamespaceRef != ast.InvalidRef, NSRef0: ni.NamespaceRef.InnerIndex, Exported: ni.IsExported,
 					Generated: repr.AST.Symbols[ref.InnerIndex].ImportItemStatus == ast.ImportItemGenerated})
 			}
 			sort.Slice(f.Imports, func(i, j int) bool { return f.Imports[i].Ref < f.Imports[j].Ref })
